@@ -196,7 +196,7 @@ def fs_job(args):
 
 
 def fs_clause(chk, tier):
-    feats = [G.E, G.B, G.S, G.N, G.M, G.T, G.G, G.D, G.K]     # not MATCHBASE: a slash-less name then matches at any depth by design
+    feats = [G.E, G.B, G.S, G.N, G.M, G.T, G.G, G.D, G.K, G.R, G.R | G.E | G.B]    # RAWCHARS: an escaped backslash stays an escaped backslash (str and bytes)     # not MATCHBASE: a slash-less name then matches at any depth by design
     flagsets = [0, G.E | G.B | G.S | G.N | G.T | G.G, G.E | G.B | G.S | G.N | G.M | G.T | G.G | G.D] + feats
     (n, bad), = [fs_job(flagsets)]
     chk.case(key='fs-escape', n=n)
